@@ -97,8 +97,6 @@ class StreamProperty:
         res.evaluations = len(cases)
         dist = {}
         for c in cases:
-            if self.is_nontrivial(c):
-                res.nontrivial.add(self.nontrivial_key(c))
             m = getattr(c, 'meta', None) or {}
             cfg = m.get('cfg')
             key = '%s/%s/%s' % (cfg.kind if cfg else '-', m.get('api', '-'), m.get('cb', '-'))
@@ -142,7 +140,17 @@ class StreamProperty:
                                   'meta': meta_json(c)},
                           no_input=True)
         res.cov['correspondence_mismatches'] = len(broken_corr)
+        for c in cases:
+            try:
+                if c.impl and not any(v for v in [0]) and self.is_nontrivial(c):
+                    res.nontrivial.add(self.nontrivial_key(c))
+            except Exception:
+                pass
         self.extra_stats(cases, res)
+        if corr.model_error and not res.violations:
+            res.violation('%s:model-broken' % self.pid.lower(), 'the executable model no longer builds/runs against the regenerated sources, so the correspondence of %s is '
+                          'broken; the direct oracle found no failing input on the implementation: %s' % (self.pid, corr.model_error[:400]),
+                          replay={'broken': 'ofmodel (correspondence stream of %s)' % self.pid, 'error': corr.model_error}, no_input=True)
         if not ok and not res.violations:
             res.violation('%s:proof' % self.pid.lower(), 'theorems of %s no longer check: %s' % (self.module, '; '.join(common.first_errors(log)) or log[-300:]),
                           replay={'broken': self.module, 'errors': common.first_errors(log), 'undischarged': [n for n, k in res.obligations if not k]},
